@@ -429,3 +429,60 @@ def r6(cx):
 def r7(cx):
     from rules.C01 import truncate_callers
     truncate_callers(cx)
+
+
+@rule("C05", "R8", "entries come back in order and only the unflushed ones: segments are ordered by their numeric id, every read walks them in that order, and read_entries_after keeps "
+      "exactly the entries with seq > mark")
+def r8(cx):
+    lk = W + "list_segments"
+    b = cx.body(lk)
+    if b is None:
+        cx.violation(lk, "anchor-missing", "body not found", [])
+        return
+    sorts = [(bi, t) for bi, t in b.calls() if re.search(r"slice::<impl \[T\]>::sort(_unstable)?(_by_key|_by)?$", t["callee"])]
+    ok = False
+    for bi, t in sorts:
+        for a in t["args"][1:]:
+            clo = a.get("closure")
+            if not clo and a["k"] in ("copy", "move"):
+                for (dbi, dsi, dk, pay) in b.defs().get(a["pl"]["l"], []):
+                    if dk == "assign" and pay["rv"]["k"] == "agg" and pay["rv"].get("ak") == "closure":
+                        clo = pay["rv"]["def"]
+            cb = cx.body(clo) if clo else None
+            if cb is not None:
+                reads_id = any(M.pl_str(st["rv"].get("pl", st["rv"].get("o", {}).get("pl", {"l": 0}))).endswith(".id") for blk in cb.blocks for st in blk["stmts"] if st["rv"]["k"] in ("use", "ref"))
+                if reads_id:
+                    ok = True
+    exits = [e for e in M.exit_defs(b) if e[2] != "err"]
+    if ok and sorts and all(b.dominated_by_blocks(e[0], {s[0] for s in sorts}) for e in exits):
+        cx.passed(lk, "segments-ordered-by-id", [b.sp(sorts[0][0])])
+    else:
+        cx.violation(lk, "segments-ordered-by-id", "list_segments does not return the segments sorted by their numeric id: recovery replays entries out of order and `last` is not the active segment", [])
+    rk = W + "WriteAheadLog::read_entries_after"
+    rb = cx.body(rk)
+    if rb is None:
+        cx.violation(rk, "anchor-missing", "body not found", [])
+        return
+    pushes = M.find_calls(rb, lambda c: c == "std::vec::Vec::<T, A>::push")
+    is_seq = lambda o: any(x[0] == "call" and x[1][1] == READER.replace("read_entries_and_valid_len", "read_entries_from_path") and M.strip_unwraps(x[2]).endswith(".seq") for x in o) or \
+        any(x[2].endswith(".seq") for x in o if x[0] == "call")
+    is_mark = lambda o: any(x[0] == "arg" and x[1] == 2 for x in o)
+    gt, used = M.edges_implying(rb, "lt", is_mark, is_seq)
+    # exactness: the other side of the same switch is `seq <= mark`; pushes only on gt, and nothing else filters
+    if pushes and gt and all(rb.dominated_by_edges(p, gt) for p in pushes) and len(used) == 1:
+        cx.passed(rk, "replay-filter-strict", [rb.sp(p) for p in pushes])
+    else:
+        cx.violation(rk, "replay-filter-strict", "read_entries_after does not keep exactly the entries with seq > mark (a >= would replay the last flushed entry again; an extra condition would drop "
+                     "unflushed ones)", [rb.sp(p) for p in pushes])
+    for fn in ("read_entries_after", "read_entries"):
+        bb = cx.body(W + "WriteAheadLog::" + fn)
+        if bb is None:
+            continue
+        ls = M.find_calls(bb, lambda c: c == lk)
+        rd = M.find_calls(bb, lambda c: c == W + "read_entries_from_path")
+        it = [n for n in M.find_calls(bb, lambda c: c == "std::iter::Iterator::next") if M.has_call(M.operand_origins(bb, bb.term(n)["args"][0], at=(n, M.T)), lambda c: c == lk)]
+        rev = M.find_calls(bb, lambda c: c.endswith("Iterator::rev") or c.endswith("::reverse"))
+        if ls and rd and it and not rev:
+            cx.passed(W + "WriteAheadLog::" + fn, "walks-segments-in-listed-order", [bb.sp(rd[0])])
+        else:
+            cx.violation(W + "WriteAheadLog::" + fn, "walks-segments-in-listed-order", "%s does not read the segments in the order list_segments returns them" % fn, [])
